@@ -70,9 +70,9 @@ pub fn run(seed: u64, thorough: bool, out_dir: &std::path::Path, scratch: &std::
     let mut rng = Rng::new(seed ^ 0xC19);
     let mut out = Out { viol: vec![], evaluations: 0, distinct: BTreeSet::new(), stats: BTreeMap::new(), samples: vec![] };
     let shards = 8usize;
-    let header = "From CKB Require Import Chain.MMR.";
+    let header = "From CKB Require Import Chain.MMR Chain.Extension.";
     let mut files: Vec<CaseFile> = (0..shards)
-        .map(|i| { let mut cf = CaseFile::new(out_dir, &format!("cases_{:02}", i), header); cf.group("mmr", "mcase", "check_mcase"); cf })
+        .map(|i| { let mut cf = CaseFile::new(out_dir, &format!("cases_{:02}", i), header); cf.group("mmr", "mcase", "check_mcase"); cf.group("ext", "ecase", "check_ecase"); cf })
         .collect();
     let mut descs: Vec<BTreeMap<String, Vec<Value>>> = (0..shards).map(|_| BTreeMap::new()).collect();
     let n_hist = hx_common::shard_share_usize(if thorough { 400 } else { 40 });
@@ -87,6 +87,8 @@ pub fn run(seed: u64, thorough: bool, out_dir: &std::path::Path, scratch: &std::
         let r = std::panic::catch_unwind(std::panic::AssertUnwindSafe(|| {
             let mut h = Hist::new(cfg.clone(), scratch.join(format!("n{hi}")), false);
             let mut steps: Vec<(u64, Vec<(u64, u64, u128)>, Vec<(u64, u64, u128)>, Vec<(u64, u64, u128)>)> = vec![];
+            // BlockExtensionVerifier's verdicts (Chain/Extension.v recomputes them): (root, extra fields, extension, accepted)
+            let mut ext_cases: Vec<(Vec<u8>, u64, Option<Vec<u8>>, bool)> = vec![];
             let mut viol: Vec<Value> = vec![];
             let mut stats: BTreeMap<String, u64> = BTreeMap::new();
             let nsteps = rng.range(5, if thorough { 16 } else { 10 });
@@ -192,6 +194,11 @@ pub fn run(seed: u64, thorough: bool, out_dir: &std::path::Path, scratch: &std::
                             for n in [1usize, 16, 31] { variants.push(("fewer than 32 bytes of the root", Some(root[..n].to_vec()))); }
                             variants.push(("no extension", None));
                         }
+                        // the tip itself passed the verifier against the root over the chain below it
+                        if main.len() >= 2 && root.len() >= 32 {
+                            let tipb = &main[main.len() - 1];
+                            ext_cases.push((roots[main.len() - 2].calc_mmr_hash().as_slice().to_vec(), tipb.data().count_extra_fields() as u64, tipb.extension().map(|e| e.raw_data().to_vec()), true));
+                        }
                         let v = frng.pick(&variants).clone();
                         let bad = match &v.1 {
                             Some(bytes) => { let e: packed::Bytes = ckb_types::bytes::Bytes::from(bytes.clone()).pack(); good.as_advanced_builder().extension(Some(e)).build() }
@@ -201,6 +208,7 @@ pub fn run(seed: u64, thorough: bool, out_dir: &std::path::Path, scratch: &std::
                             let tip_before = node.tip().hash();
                             let r = node.process(&bad);
                             *stats.entry("bad_extension_children_offered".into()).or_default() += 1;
+                            ext_cases.push((root[..32].to_vec(), bad.data().count_extra_fields() as u64, bad.extension().map(|e| e.raw_data().to_vec()), r.is_ok()));
                             if r.is_ok() || node.tip().hash() != tip_before {
                                 viol.push(json!({"what": format!("a child of the tip whose extension carries {} ({} bytes) instead of the MMR root over its ancestors was accepted", v.0, v.1.as_ref().map(|b| b.len()).unwrap_or(0)),
                                                  "detail": {"history": h.jops, "extension": v.1.as_ref().map(|b| hex(b)), "block": hex(bad.data().as_slice())}}));
@@ -283,7 +291,7 @@ pub fn run(seed: u64, thorough: bool, out_dir: &std::path::Path, scratch: &std::
             for (k, v) in h.stats.clone() { *stats.entry(k).or_default() += v; }
             let key = format!("{:?}", h.jops);
             h.finish();
-            (case, desc, viol, stats, key)
+            (case, desc, viol, stats, key, ext_cases)
         }));
         out.evaluations += 1;
         match r {
@@ -291,7 +299,7 @@ pub fn run(seed: u64, thorough: bool, out_dir: &std::path::Path, scratch: &std::
                 let msg = p.downcast_ref::<String>().cloned().or_else(|| p.downcast_ref::<&str>().map(|s| s.to_string())).unwrap_or_default();
                 out.viol.push(json!({"what": format!("the node panicked while processing a history: {msg}"), "detail": {"history_index": hi, "seed": seed, "history": last_history()}}));
             }
-            Ok((case, desc, viol, stats, key)) => {
+            Ok((case, desc, viol, stats, key, ext_cases)) => {
                 out.viol.extend(viol);
                 out.distinct.insert(key);
                 for (k, v) in stats { *out.stats.entry(k).or_default() += v; }
@@ -299,6 +307,11 @@ pub fn run(seed: u64, thorough: bool, out_dir: &std::path::Path, scratch: &std::
                 files[sh].push(0, case);
                 if out.samples.is_empty() { out.samples.push(json!({"history": desc["history"], "window": desc["window"]})); }
                 descs[sh].entry("mmr".into()).or_default().push(desc);
+                for (root, nf, ext, acc) in ext_cases {
+                    let bytes = |b: &Vec<u8>| coq_list(b, |x| coq_n(*x as u128));
+                    files[sh].push(1, format!("mkECase true {} (mkEB {} {} true) {}", bytes(&root), coq_nat(nf), coq_option(&ext, |e| bytes(e)), coq_bool(acc)));
+                    descs[sh].entry("ext".into()).or_default().push(json!({"stream": "extension-verifier", "history_index": hi, "extension_bytes": ext.as_ref().map(|e| e.len()), "accepted": acc}));
+                }
             }
         }
     }
